@@ -136,6 +136,11 @@ TYPE_OVERRIDES = {
 DOC_ALIASES = {'DataHandler': 'BacktestDataHandler', 'Broker': 'SimulatedBroker', 'Exchange': 'SimulatedExchange'}
 
 
+CONTAINER_METHODS = {'update', 'append', 'extend', 'get', 'pop', 'items', 'keys', 'values', 'add', 'remove', 'clear', 'copy', 'sort', 'index', 'count',
+                     'put', 'insert', 'setdefault', 'discard', 'popitem', 'join', 'split', 'format', 'replace', 'strip', 'upper', 'lower', 'empty', 'qsize',
+                     'get_nowait', 'put_nowait', 'union', 'difference', 'intersection', 'reverse', 'sum', 'mean', 'std', 'max', 'min', 'date', 'time'}
+
+
 class Model:
     def __init__(self, sources):
         self.sources = sources
@@ -304,7 +309,16 @@ class Model:
                             out |= self.return_types(m)
                     if rt == 'builtin:dict' and f.attr in ('values', 'keys', 'items'):
                         pass
+                if f.attr in ('get', 'pop', 'setdefault') and isinstance(f.value, ast.Attribute):
+                    for bt in self.expr_types(fn, f.value.value, env):
+                        for c in self.cls_by_name.get(bt, []):
+                            for k in c.mro():
+                                out |= self.elem_of(k, f.value.attr)
+                if f.attr in ('get', 'pop', 'setdefault') and isinstance(f.value, ast.Name):
+                    out |= set(env.get('@elems:' + f.value.id, ()))
                 # dict.values()/items() of a typed container field
+                if f.attr in ('values',) and isinstance(f.value, ast.Name):
+                    out |= {'iter:' + x for x in env.get('@elems:' + f.value.id, ())}
                 if f.attr in ('values',) and isinstance(f.value, ast.Attribute):
                     for bt in self.expr_types(fn, f.value.value, env):
                         for c in self.cls_by_name.get(bt, []):
@@ -341,6 +355,8 @@ class Model:
             return out
         if isinstance(e, ast.Subscript):
             out = set()
+            if isinstance(e.value, ast.Name):
+                out |= set(env.get('@elems:' + e.value.id, ()))
             if isinstance(e.value, ast.Attribute):
                 for rt in self.expr_types(fn, e.value.value, env):
                     for c in self.cls_by_name.get(rt, []):
@@ -402,6 +418,12 @@ class Model:
             for n in ast.walk(fn.node):
                 if isinstance(n, ast.Assign) and len(n.targets) == 1 and isinstance(n.targets[0], ast.Name):
                     env[n.targets[0].id] |= self.expr_types(fn, n.value, env)
+                    # local alias of a typed container field: remember its element types
+                    if isinstance(n.value, ast.Attribute):
+                        for bt in self.expr_types(fn, n.value.value, env):
+                            for c in self.cls_by_name.get(bt, []):
+                                for k in c.mro():
+                                    env['@elems:' + n.targets[0].id] |= self.elem_of(k, n.value.attr)
                 elif isinstance(n, (ast.For, ast.comprehension)):
                     ts = self.expr_types(fn, n.iter, env)
                     elem = {t[5:] for t in ts if t.startswith('iter:')}
@@ -415,6 +437,10 @@ class Model:
                             for c in self.cls_by_name.get(bt, []):
                                 for k in c.mro():
                                     env[n.target.elts[1].id] |= self.elem_of(k, n.iter.func.value.attr)
+                    if isinstance(n.iter, ast.Call) and isinstance(n.iter.func, ast.Attribute) and n.iter.func.attr == 'items' \
+                            and isinstance(n.target, ast.Tuple) and len(n.target.elts) == 2 and isinstance(n.target.elts[1], ast.Name) \
+                            and isinstance(n.iter.func.value, ast.Name):
+                        env[n.target.elts[1].id] |= set(env.get('@elems:' + n.iter.func.value.id, ()))
                     if isinstance(n.target, ast.Name) and isinstance(n.iter, ast.Attribute):
                         for bt in self.expr_types(fn, n.iter.value, env):
                             for c in self.cls_by_name.get(bt, []):
@@ -525,6 +551,9 @@ class Model:
                     if f.attr in b.methods:
                         return [b.methods[f.attr]], 'super', 1
                 return [], 'ext:object.' + f.attr, 0
+            if isinstance(f.value, ast.Name) and f.value.id == 'cls' and fn.is_classmethod and fn.cls is not None:
+                m = fn.cls.lookup(f.attr)
+                return ([m] if m else []), ('static' if m else 'unresolved-attr:' + f.attr), 1
             if isinstance(f.value, ast.Name) and f.value.id != 'self' and f.value.id not in env and f.value.id not in fn.params:
                 t = self.resolve_name(fn.mod, f.value.id)
                 if isinstance(t, Cls):
@@ -557,7 +586,7 @@ class Model:
             if ext:
                 return [], 'ext-typed:%s.%s' % (ext[0], f.attr), 0
             # layer 3
-            ch = self.cha(f.attr)
+            ch = self.cha(f.attr) if f.attr not in CONTAINER_METHODS else []
             if ch and isinstance(f.value, ast.Attribute) and isinstance(f.value.value, ast.Name) and f.value.value.id == 'self':
                 return ch, 'cha', 3
             return [], 'untyped-attr:' + f.attr, 0
@@ -590,12 +619,19 @@ class Model:
         """Attribute read that is a @property of a repo class -> list[Func]."""
         env = env if env is not None else self.local_env(fn)
         out, seen = [], set()
-        for rt in sorted(self.expr_types(fn, attr_node.value, env)):
+        rts = self.expr_types(fn, attr_node.value, env)
+        for rt in sorted(rts):
             for c in self.concrete(rt):
                 m = c.lookup(attr_node.attr)
                 if m and m.is_property and m.qn not in seen:
                     seen.add(m.qn)
                     out.append(m)
+        if not out and not any(self.concrete(rt) for rt in rts):
+            # untyped receiver: a property name defined by exactly one class of the package and by no field
+            cands = [c.methods[attr_node.attr] for c in self.classes.values() if attr_node.attr in c.methods and c.methods[attr_node.attr].is_property]
+            is_field = any(attr_node.attr in c.field_types for c in self.classes.values())
+            if len(cands) == 1 and not is_field:
+                out = cands
         return out
 
     # ------------------------------------------------------------------ call graph
